@@ -476,7 +476,7 @@ def _obj(E, name, typ, entries=(), pos_extra=(), with_pos=True):
 
 
 MESSAGE_CASES = ["root-object", "list-object", "nested-object", "keyword", "keyword-in-list-object", "list-value-item",
-                 "nested-list-value-item", "repeated-keyword", "keyword-without-own-position", "no-positions",
+                 "nested-list-value-item", "repeated-keyword", "repeated-keyword-as-a-whole", "repeated-keyword-first", "keyword-without-own-position", "no-positions",
                  "object-with-keyword-named-like-its-type"]
 
 
@@ -537,6 +537,15 @@ class CreateMessage(Contract):
             root = _obj(E, "root", "layer", [(k, [E.str("p0"), E.int("p1")])], pos_extra=[(k, [_pos(E, "kw0"), _pos(E, "kw1")])])
             path = [k, 1]
             exp = dict(name=k, pos="kw1")
+        elif case == "repeated-keyword-as-a-whole":
+            # an error about the list itself (e.g. a wrong item count): the first occurrence stands for the keyword
+            root = _obj(E, "root", "layer", [(k, [E.str("p0"), E.int("p1")])], pos_extra=[(k, [_pos(E, "kw0"), _pos(E, "kw1")])])
+            path = [k]
+            exp = dict(name=k, pos="kw0")
+        elif case == "repeated-keyword-first":
+            root = _obj(E, "root", "layer", [(k, [E.str("p0"), E.int("p1")])], pos_extra=[(k, [_pos(E, "kw0"), _pos(E, "kw1")])])
+            path = [k, 0]
+            exp = dict(name=k, pos="kw0")
         elif case == "keyword-without-own-position":
             root = _obj(E, "root", "map", [(k, E.str("val"))])
             path = [k]
